@@ -327,11 +327,17 @@ transformations:
 // Timeouts are the scaled package parameters of a run.
 type Timeouts struct {
 	InputFlush, InterFlush, Channel, Conn, Ack, Retry, Ping time.Duration
+	// Safety, if larger than Channel, is the value given to the two parameters that are pure safety nets — the intermediate
+	// channel timeout (records are discarded with "BUG: timeout flushing" when a pipeline does not take them for that long; the
+	// acknowledger's hard stop) and the buffer's shutdown timeout ("BUG: couldn't stop feeder in time"). No legal path waits
+	// them out, so the stop bound is still computed from Channel; scaled down as far as the others they expire whenever the
+	// machine stalls the process for a second (disk write-back, another job), which is the environment, not the agent.
+	Safety time.Duration
 }
 
 // DefaultTimeouts is the usual uniform scaling (about 1/200 .. 1/400 of the product's).
 var DefaultTimeouts = Timeouts{InputFlush: 8 * time.Millisecond, InterFlush: 12 * time.Millisecond, Channel: 1200 * time.Millisecond,
-	Conn: 250 * time.Millisecond, Ack: 300 * time.Millisecond, Retry: 10 * time.Millisecond, Ping: 60 * time.Millisecond}
+	Conn: 250 * time.Millisecond, Ack: 300 * time.Millisecond, Retry: 10 * time.Millisecond, Ping: 60 * time.Millisecond, Safety: 8 * time.Second}
 
 // SetDefs scales the package parameters uniformly; must run before any agent goroutine exists.
 func SetDefs(sc Scenario, t Timeouts) time.Duration {
@@ -340,7 +346,11 @@ func SetDefs(sc Scenario, t Timeouts) time.Duration {
 	defs.ListenerLineBufferSize = defs.InputLogMaxRecordBytes * 4
 	defs.InputFlushInterval = t.InputFlush
 	defs.IntermediateFlushInterval = t.InterFlush
-	defs.IntermediateChannelTimeout = t.Channel
+	safety := t.Channel
+	if t.Safety > safety {
+		safety = t.Safety
+	}
+	defs.IntermediateChannelTimeout = safety
 	defs.IntermediateBufferMaxNumLogs = sc.BatchLogs
 	if defs.IntermediateBufferMaxNumLogs <= 0 {
 		defs.IntermediateBufferMaxNumLogs = 7
@@ -365,12 +375,12 @@ func SetDefs(sc Scenario, t Timeouts) time.Duration {
 	defs.ForwarderAckerStopTimeout = t.Ack + t.Channel
 	defs.ForwarderRetryInterval = t.Retry
 	defs.ForwarderPingInterval = t.Ping
-	defs.BufferShutDownTimeout = t.Ack + 2*t.Channel
+	defs.BufferShutDownTimeout = t.Ack + 2*safety
 	if sc.ChunkBytes > 0 {
 		fluentdforward.SetChunkLimitsForVerif(sc.ChunkBytes, 0)
 	}
 	// the longest legal path of a stop: input flush + channel hand-offs + buffer shutdown + acker stop
-	return 2*t.InputFlush + 2*t.Channel + defs.BufferShutDownTimeout + t.Channel + defs.ForwarderAckerStopTimeout + defs.ForwarderBatchSendTimeoutBase
+	return 2*t.InputFlush + 2*t.Channel + (t.Ack + 2*t.Channel) + t.Channel + defs.ForwarderAckerStopTimeout + defs.ForwarderBatchSendTimeoutBase
 }
 
 // ---------- the agent ----------
@@ -438,14 +448,22 @@ type clientResult struct {
 	err     string
 }
 
-func runClient(addr string, cs ConnSpec, stop <-chan struct{}) clientResult {
+func runClient(addr string, cs ConnSpec, stop, stopping <-chan struct{}) clientResult {
 	res := clientResult{id: cs.ID}
 	if cs.StartMs > 0 {
 		select {
 		case <-time.After(time.Duration(cs.StartMs) * time.Millisecond):
 		case <-stop:
 			return res
+		case <-stopping:
+			return res
 		}
+	}
+	// never dial an agent that has been asked to stop: its port may already belong to another process on this machine
+	select {
+	case <-stopping:
+		return res
+	default:
 	}
 	conn, err := net.DialTimeout("tcp", addr, 5*time.Second)
 	if err != nil {
@@ -607,6 +625,51 @@ type Hooks struct {
 	OnStuck    func(gen int, where string)
 }
 
+// SafetyExpired returns the agent's own reports that one of its safety timeouts expired during the run. After that the
+// agent has, by design, given something up (records not taken by a pipeline, a buffer that did not finish saving, with
+// goroutines of the old generation still running next to the new one in this process), so what follows says nothing about the
+// mechanisms under test.
+func SafetyExpired(obs *Obs) []string {
+	var out []string
+	if obs == nil {
+		return nil
+	}
+	for gi, g := range obs.Gens {
+		for _, l := range g.AgentLog {
+			if strings.Contains(l, "BUG: timeout flushing") || strings.Contains(l, "BUG: couldn't stop feeder in time") ||
+				strings.Contains(l, "BUG: timeout waiting for acknowledger to hard stop") || strings.Contains(l, "failed to wait for pending chunks") {
+				if len(l) > 160 {
+					l = l[:160]
+				}
+				out = append(out, fmt.Sprintf("gen%d: %s", gi, l))
+			}
+		}
+	}
+	return out
+}
+
+// RunStable runs the scenario and, if the observation has findings AND the agent reported an expired safety timeout, runs it
+// again (at most three attempts): findings are taken from the first attempt without such a report; if every attempt has
+// findings together with an expiry, the last one is returned (the tree itself makes the timeouts expire). expired lists the
+// reports of the attempts that were set aside.
+func RunStable(sc Scenario, work string, hk Hooks, hasFindings func(*Obs) bool) (obs *Obs, err error, attempts int, expired []string) {
+	for attempts = 1; ; attempts++ {
+		w := work
+		if attempts > 1 {
+			w = filepath.Join(work, fmt.Sprintf("retry%d", attempts))
+		}
+		obs, err = Run(sc, w, hk)
+		if err != nil || obs == nil {
+			return obs, err, attempts, expired
+		}
+		exp := SafetyExpired(obs)
+		if len(exp) == 0 || !hasFindings(obs) || attempts == 3 {
+			return obs, nil, attempts, expired
+		}
+		expired = append(expired, exp...)
+	}
+}
+
 // Run executes the scenario in this process. The caller must be a child process (a crash takes it down).
 func Run(sc Scenario, work string, hk Hooks) (*Obs, error) {
 	t := DefaultTimeouts
@@ -676,6 +739,7 @@ func Run(sc Scenario, work string, hk Hooks) (*Obs, error) {
 			hk.OnAgent(gi, a)
 		}
 		stopCh := make(chan struct{})
+		stoppingCh := make(chan struct{})
 		var wg sync.WaitGroup
 		results := make([]clientResult, len(g.Conns))
 		var closing sync.WaitGroup
@@ -686,7 +750,7 @@ func Run(sc Scenario, work string, hk Hooks) (*Obs, error) {
 			}
 			go func(i int, cs ConnSpec) {
 				defer wg.Done()
-				results[i] = runClient(a.Addr, cs, stopCh)
+				results[i] = runClient(a.Addr, cs, stopCh, stoppingCh)
 				if !cs.LeaveOpen {
 					closing.Done()
 				}
@@ -753,6 +817,7 @@ func Run(sc Scenario, work string, hk Hooks) (*Obs, error) {
 			hk.BeforeStop(gi, a, ups)
 		}
 		// the graceful stop, under a watchdog
+		close(stoppingCh)
 		done := make(chan struct{})
 		go func() {
 			gobs.InputStop, gobs.StopDur = a.Stop()
@@ -812,6 +877,12 @@ func Run(sc Scenario, work string, hk Hooks) (*Obs, error) {
 				d.Output, d.Where, d.Clock, d.UpConn, d.ChunkID, d.Tag, d.Acked, d.Gen = u.Name, "up", m.Clock, m.Conn, m.ChunkID, m.Tag, m.AckSent, g
 				obs.Up = append(obs.Up, d)
 			}
+		}
+	}
+	for _, u := range ups {
+		if u.PortLost() {
+			// environment, not the agent: nothing observed in this run can be attributed
+			return nil, fmt.Errorf("upstream %s could not keep its port through a refusal window; run not judged", u.Name)
 		}
 	}
 	sort.SliceStable(obs.Up, func(i, j int) bool { return obs.Up[i].Clock < obs.Up[j].Clock })
